@@ -128,7 +128,7 @@ contract(A + "Action.__enter__", props=["C04", "C05", "C02"],
 LOGGING_FRAME = ["#LOG", "#OFFERS", "#CALLS", "#IO", "#NTOP", "field:_last_child"]
 OTHER_REPORTS = "forall(lambda i: implies(len(old(LOG)) <= i and i < len(LOG) and i != J, is_report(LOG[i])), 'int')"
 
-contract(A + "Action.finish", props=["C03", "C02", "C13", "C07"],
+contract(A + "Action.finish", props=["C03", "C02", "C13", "C07"], shards=4,
          types={"exception": "Opt[Exc]"}, returns="none",
          ghosts={"R1": "seqe", "R2": "seqe", "E": "ev"}, ghost_defaults={"R1": "empty_log()"},
          after={"ILogger.write#0": [("R2", "R"), ("E", "write_ev(self, dictionary, serializer)")],
@@ -196,7 +196,7 @@ contract(A + "Action.child", props=["C02", "C01", "C04"],
                   ("child-dicts-private", "fresh(result._successFields) and fresh(result._identification)")])
 
 LOG_KEYS = "'timestamp', 'task_uuid', 'task_level', 'message_type'"
-contract(A + "Action.log", props=["C02", "C01", "C07", "C13"],
+contract(A + "Action.log", props=["C02", "C01", "C07", "C13"], shards=3,
          types={"message_type": "Any", "fields": "dict[__eliot_logger__=role:ILogger;*=Any]"}, returns="none",
          ghosts={"R": "seqe", "L": "Any", "SER": "Any", "DOFF": "seqe"},
          snapshots={"ILogger.write#0": [("L", "box(self)"), ("SER", "box(serializer)")]},
